@@ -84,14 +84,15 @@ def run_checks(args, meta, wt, patch, src, name):
     results = {}
     try:
         for c in checks:
-            env = dict(os.environ, VERIF_SEED=args.seed, BARDOLPH_REPO=wt)
+            out_dir = os.path.join(os.path.dirname(wt), 'out')
+            env = dict(os.environ, VERIF_SEED=args.seed, BARDOLPH_REPO=wt, VERIF_OUT_DIR=out_dir)
             rr = sh([os.path.join(ROOT, 'check'), c, '--tier', 'quick'], cwd=ROOT, env=env, timeout=3000)
             lines = [ln for ln in rr.stdout.splitlines() if ln.startswith('VIOLATION')]
             detail = []
             for ln in lines:
                 path = ln.split('replay=')[1].split()[0]
                 try:
-                    d = json.load(open(os.path.join(ROOT, path)))
+                    d = json.load(open(os.path.join(out_dir, path)))
                     detail.append({'line': ln, 'signature': d.get('signature'),
                                    'what': str(d.get('what'))[:300],
                                    'no_longer_checks': d.get('no_longer_checks')})
